@@ -73,7 +73,7 @@ def r1_inclusive_stop(R) -> None:
                         f'None (`{nm}` is `{src} or {text(dv)[:30]}`): a slice bounded by such a label is read as open', where=f.fi.where)
             return
         if kind == 'missing':
-            R.violation(q, f'default-missing:{part}', f'no default for an open slice {part} (`{nm} is None`)', where=f.fi.where)
+            R.violation(q, f'default-missing:{part}', f'no default for an open slice {part} (`{nm} is None`)', where=f.fi.where, mismatch=True)
             continue
         got = text(f.expand(rets_[0].id, dv))
         R.check(got in want[part] or text(dv) in want[part], q, f'default:{part}:{got}', f'an open {part} defaults to {want[part][-1]}',
@@ -85,10 +85,10 @@ def r1_inclusive_stop(R) -> None:
     for part in ('start', 'stop'):
         other = 'stop' if part == 'start' else 'start'
         if not located[part] and len(located[other]) >= 2:
-            R.violation(q, f'locate:{part}', f'the {part} label `{role[part]}` is never located: both positions are computed from the {other} label', where=f.fi.where)
+            R.violation(q, f'locate:{part}', f'the {part} label `{role[part]}` is never located: both positions are computed from the {other} label', where=f.fi.where, mismatch=True)
             return
         if not located[part]:
-            R.violation(q, f'locate:{part}', f'the {part} label `{role[part]}` is never located in the span', where=f.fi.where)
+            R.violation(q, f'locate:{part}', f'the {part} label `{role[part]}` is never located in the span', where=f.fi.where, mismatch=True)
             return
     for part in ('start', 'stop'):
         if len(located[part]) != 1:
@@ -100,7 +100,7 @@ def r1_inclusive_stop(R) -> None:
         nm = loc[part]
         ds = [d for d in f.vdefs(nm) if d.op is None and d.knows(f'isinstance({nm}, slice)')]
         if not ds:
-            R.violation(q, f'slice-hit-missing:{part}', f'a slice returned for the {part} label is not reduced to a position', where=f.fi.where)
+            R.violation(q, f'slice-hit-missing:{part}', f'a slice returned for the {part} label is not reduced to a position', where=f.fi.where, mismatch=True)
             continue
         R.check(text(ds[0].value) == f'{nm}.{attr}', q, f'slice-hit:{part}:{text(ds[0].value)}', f'a slice hit for the {part} label contributes its .{attr}',
                 f'a slice hit for the {part} label contributes `{text(ds[0].value)}`, expected `.{attr}`', where=f.where(ds[0].node))
@@ -284,7 +284,7 @@ def r2_get_set_symmetry(R) -> None:
             elif kind in ('raises', 'labels'):
                 pass
             else:
-                R.violation(g.q, f'get-subscript:{text(sel)[:50]}', f'`return {text(v)[:60]}`: {kind}', where=g.where(r))
+                R.violation(g.q, f'get-subscript:{text(sel)[:50]}', f'`return {text(v)[:60]}`: {kind}', where=g.where(r), mismatch=True)
     R.check(seen['slice'], g.q, 'get-slice', 'a label slice returns series[start:stop:step]', 'no `return series[start:stop:step]` for label slices', where=g.fi.where)
     R.check(seen['loc'], g.q, 'get-label', 'a single label returns series[position]', 'no `return series[position]` for single labels', where=g.fi.where)
     # set: every store through the series named by the key
@@ -308,7 +308,7 @@ def r2_get_set_symmetry(R) -> None:
                     pass
                 else:
                     R.violation(s.q, f'set-subscript:{text(sel)[:50]}', f'`{text(a)[:70]}`: {kind}' + (' (e.g. a slice without the step writes every period in between)' if kind.startswith('slice') else ''),
-                                where=s.where(n))
+                                where=s.where(n), mismatch=True)
     R.check(seen['slice'], s.q, 'set-slice', 'a label slice writes series[start:stop:step]', 'no store through series[start:stop:step] for label slices', where=s.fi.where)
     R.check(seen['loc'], s.q, 'set-label', 'a single label writes series[position]', 'no store through series[position] for single labels', where=s.fi.where)
     # non-tuple path: whole array (read on gated values: the key may have been unpacked or re-packed on the way)
